@@ -1,6 +1,7 @@
 package checks
 
 import (
+	"bytes"
 	"fmt"
 	"math"
 	"reflect"
@@ -201,6 +202,14 @@ func runC05InWorker(c c05Case) (c05Result, error) {
 			return res, fmt.Errorf("VERIF-INCONCLUSIVE harness: %v", err)
 		}
 		inputs = append(inputs, input{d: d, rec: rec, body: body})
+		// the same datum as other writers may encode it: collections as one sized
+		// block, and split into several blocks
+		for _, bits := range [][]byte{{0, 1, 0, 1, 0, 1, 0, 1}, {1, 0, 1, 1, 1, 0, 0, 1, 1, 1}} {
+			alt, err := ref.Encode(s, rec, &ref.Choices{Bits: bits})
+			if err == nil && !bytes.Equal(alt, body) {
+				inputs = append(inputs, input{d: d, rec: rec, body: alt})
+			}
+		}
 	}
 	for _, rb := range c.Raw {
 		inputs = append(inputs, input{d: ref.Datum{K: "bytes", S: rb}, body: rb, raw: true})
